@@ -968,9 +968,12 @@ var restartNS = []string{nsR1, nsR2, nsR3}
 var restartLocal = []string{"r1", "r2", "r3"}
 
 type addrChoice struct {
-	To   string `json:"to"`   // "" = attribute absent
-	From string `json:"from"` // "" = attribute absent
-	Kind string `json:"kind"`
+	To      string `json:"to"`   // "" = attribute absent
+	From    string `json:"from"` // "" = attribute absent
+	Kind    string `json:"kind"`
+	ID      string `json:"id"`      // "" = attribute absent
+	Version string `json:"version"` // "-" = attribute absent, "" = 1.0
+	Attrs   string `json:"attrs"`   // what was done to id / version
 }
 
 func otherJID(r *rand.Rand, j jid.JID) jid.JID {
@@ -1038,6 +1041,28 @@ func restart(c *core.Case) {
 				}
 			}
 		}
+		// identifiers of the later headers: the stream id and version of every
+		// header count, not only those of the first one
+		h.Attrs = "canonical"
+		if !recv {
+			h.ID = fmt.Sprintf("p%d", i+1)
+		}
+		switch r.Intn(10) {
+		case 0:
+			if !recv {
+				h.ID, h.Attrs = "", "id-omitted"
+			}
+		case 1:
+			h.Version, h.Attrs = "-", "version-omitted"
+		case 2:
+			h.Version, h.Attrs = []string{"0.9", "1.1", "2.0", "0.1", "1"}[r.Intn(5)], "version-other"
+		case 3:
+			if !recv {
+				h.ID, h.Attrs = pick(r, safeIDs), "id-different"
+			}
+		case 4:
+			h.Version, h.Attrs = "01.0", "version-equivalent"
+		}
 		hs[i] = h
 		changed := ""
 		if h.To != "" && !mustJID(h.To).Equal(mustJID(estTo)) {
@@ -1051,18 +1076,25 @@ func restart(c *core.Case) {
 			}
 		}
 		if changed != "" && firstBad < 0 {
-			firstBad, badAttr = i, changed
+			firstBad, badAttr = i, changed+"-changed"
+		}
+		if firstBad < 0 {
+			// the reference predicate applies to every header of the session
+			hb := []byte(hspeer.Header(hspeer.HeaderOpts{WS: ws, NS: nsOf(s2s), To: h.To, From: h.From, ID: h.ID, Version: h.Version}))
+			if _, clause, perr := refHeader(hb, recv, ws); perr == nil && clause != "" {
+				firstBad, badAttr = i, clause
+			}
 		}
 	}
+	if !recv {
+		hs[0].ID = "p1"
+	}
+	hs[0].Attrs = "canonical"
 	c.Sample(map[string]any{"part": "restart", "role": role(recv), "ws": ws, "s2s": s2s, "origin": origin.String(), "location": location.String(), "headers": hs, "first_changed_header": firstBad + 1})
 	log := &hspeer.Log{}
 	fs := restartFeatures(log)
 	hdr := func(i int) string {
-		o := hspeer.HeaderOpts{WS: ws, NS: nsOf(s2s), To: hs[i].To, From: hs[i].From}
-		if !recv {
-			o.ID = fmt.Sprintf("p%d", i+1)
-		}
-		return hspeer.Header(o)
+		return hspeer.Header(hspeer.HeaderOpts{WS: ws, NS: nsOf(s2s), To: hs[i].To, From: hs[i].From, ID: hs[i].ID, Version: hs[i].Version})
 	}
 	ctx := context.Background()
 	var s *xmpp.Session
@@ -1099,26 +1131,72 @@ func restart(c *core.Case) {
 	c.Count("restart_cases", 1)
 	n := log.Negotiated()
 	c.Count("restarts_observed", min(n, 2))
-	kinds := hs[1].Kind + "," + hs[2].Kind
+	kinds := hs[1].Kind + "/" + hs[1].Attrs + "," + hs[2].Kind + "/" + hs[2].Attrs
 	c.Sig("restart|%s|ws=%v|s2s=%v|h1=%s|%s|negotiated=%d|ok=%v", role(recv), ws, s2s, hs[0].Kind, kinds, n, err == nil)
+	for i := 1; i < 3; i++ {
+		c.Count("restart_header:"+hs[i].Attrs, 1)
+	}
 	if firstBad < 0 {
 		if err == nil && ready(s) {
 			c.Count("restart_unchanged_established", 1)
+			// what the session reports about its input stream is what the last
+			// header carried, not what an earlier stream's header said
+			in := s.In()
+			if !recv && in.ID != hs[2].ID {
+				c.Violate("hdr:restart:value:id", "initiator: the header of the third stream carries id=%q, In().ID reports %q; headers %+v", hs[2].ID, in.ID, hs)
+			}
+			if in.Version != stream.DefaultVersion {
+				c.Violate("hdr:restart:value:version", "%s: In().Version reports %v after three accepted headers; headers %+v", role(recv), in.Version, hs)
+			}
+			if hs[1].Attrs == "id-different" || hs[2].Attrs == "id-different" {
+				c.Count("restart_id_changed_and_reported", 1)
+			}
 		} else {
 			c.Count("restart_unchanged_refused", 1)
 		}
 		return
 	}
-	c.Count("restart_changed_address_cases", 1)
-	// header number firstBad+1 changes an established address: the features of
-	// that stream (index firstBad) must not be negotiated
+	addr := strings.HasSuffix(badAttr, "-changed")
+	if addr {
+		c.Count("restart_changed_address_cases", 1)
+	} else {
+		c.Count("restart_invalid_later_header_cases", 1)
+		c.Count("restart_invalid_later_header:"+badAttr, 1)
+	}
+	// header number firstBad+1 changes an established address or fails a
+	// requirement of the statement: the features of that stream (index firstBad)
+	// must not be negotiated
 	if err == nil || n > firstBad {
-		c.Violate("hdr:restart:"+role(recv)+":"+badAttr+"-changed",
-			"%s: header %d after %d restart(s) carries to=%q from=%q although to=%q from=%q were established; constructor error=%v, %d feature(s) negotiated (at most %d allowed); headers %+v",
-			role(recv), firstBad+1, firstBad, hs[firstBad].To, hs[firstBad].From, estTo, estFromOf(hs, firstBad), err, n, firstBad, hs)
+		if addr {
+			c.Violate("hdr:restart:"+role(recv)+":"+badAttr,
+				"%s: header %d after %d restart(s) carries to=%q from=%q although to=%q from=%q were established; constructor error=%v, %d feature(s) negotiated (at most %d allowed); headers %+v",
+				role(recv), firstBad+1, firstBad, hs[firstBad].To, hs[firstBad].From, estTo, estFromOf(hs, firstBad), err, n, firstBad, hs)
+		} else {
+			c.Violate("hdr:restart:"+role(recv)+":"+badAttr,
+				"%s: header %d after %d restart(s) (%s: id=%q version=%q) fails the %q requirement but was accepted: constructor error=%v, %d feature(s) negotiated (at most %d allowed), In().ID=%q In().Version=%v; headers %+v",
+				role(recv), firstBad+1, firstBad, hs[firstBad].Attrs, hs[firstBad].ID, hs[firstBad].Version, badAttr, err, n, firstBad, inID(s), inVersion(s), hs)
+		}
 		return
 	}
-	c.Count("restart_changed_address_refused", 1)
+	if addr {
+		c.Count("restart_changed_address_refused", 1)
+	} else {
+		c.Count("restart_invalid_later_header_refused", 1)
+	}
+}
+
+func inID(s *xmpp.Session) string {
+	if s == nil {
+		return ""
+	}
+	return s.In().ID
+}
+
+func inVersion(s *xmpp.Session) stream.Version {
+	if s == nil {
+		return stream.Version{}
+	}
+	return s.In().Version
 }
 
 func estFromOf(hs []addrChoice, upto int) string {
@@ -1675,7 +1753,8 @@ func Prop() *core.Prop {
 		},
 		Require: []string{"emit_direct", "emit_session_initiator", "emit_session_receiver", "emitted_headers_parsed", "lib2lib_established",
 			"accept_direct", "accept_session", "valid_headers_accepted", "invalid_headers_refused", "refused:version", "refused:no-id", "refused:name", "refused:content-ns",
-			"restart_cases", "restart_unchanged_established", "restart_changed_address_cases",
+			"restart_cases", "restart_unchanged_established", "restart_changed_address_cases", "restart_changed_address_refused",
+			"restart_invalid_later_header:no-id", "restart_invalid_later_header:version", "restart_invalid_later_header_refused", "restart_id_changed_and_reported", "restart_header:version-equivalent",
 			"stream_error_cases", "bind_initiator_cases", "bind_requests_parsed", "bind_receiver_cases", "bind_replies_parsed", "bind_callback_invocations", "bind_bad_replies_refused",
 			"bind_assigned:same-bare", "bind_assigned:other-localpart", "bind_assigned:localpart-added", "bind_assigned:localpart-removed", "bind_assigned:other-domain", "bind_assigned_special_resource", "bind_results_accepted_with_other_bare_address"},
 	}
